@@ -482,13 +482,30 @@ func c12Unwrap(c *Ctx) {
 			errIdx = i
 		}
 	}
+	var errP *T
 	if errIdx < 0 {
-		c.Unresolved(name, "no error parameter")
-		return
-	}
-	errP := ev.Param(fn, fn.Params[errIdx].Name())
-	if errP == nil {
-		errP = ts.intern(&T{Op: "param", Aux: fn.Params[errIdx].Name(), Typ: fn.Params[errIdx].Type()})
+		// the error travels in a by-value parameter bundle
+		for _, prm := range fn.Params {
+			st, isS := prm.Type().Underlying().(*types.Struct)
+			if !isS {
+				continue
+			}
+			for i := 0; i < st.NumFields(); i++ {
+				if types.TypeString(st.Field(i).Type(), nil) == "error" {
+					k, ft := fieldKey(prm.Type(), i)
+					errP = ts.intern(&T{Op: "fld", Aux: k, Args: []*T{ts.intern(&T{Op: "param", Aux: prm.Name(), Typ: prm.Type()})}, Typ: ft})
+				}
+			}
+		}
+		if errP == nil {
+			c.Unresolved(name, "no error parameter")
+			return
+		}
+	} else {
+		errP = ev.Param(fn, fn.Params[errIdx].Name())
+		if errP == nil {
+			errP = ts.intern(&T{Op: "param", Aux: fn.Params[errIdx].Name(), Typ: fn.Params[errIdx].Type()})
+		}
 	}
 	var target *T
 	ok := true
@@ -578,17 +595,29 @@ func c12Unwrap(c *Ctx) {
 			for i, r := range rec {
 				// same call as the one being evaluated except for the error argument
 				fa := fullArgs(r)
-				sameRest := len(fa) == len(fn.Params)
+				// the function's own parameters, in the shape its calls are seen in (upstream order; the fields of a
+				// parameter bundle)
+				var own []*T
+				if names, known := refParamNames(c.P.CanonFuncName(fn)); known {
+					for _, nm := range names {
+						own = append(own, ev.Param(fn, nm))
+					}
+				} else {
+					for _, prm := range fn.Params {
+						own = append(own, ts.intern(&T{Op: "param", Aux: prm.Name(), Typ: prm.Type()}))
+					}
+				}
+				sameRest := len(fa) == len(own)
 				var a *T
 				for j := range fa {
 					if !sameRest {
 						break
 					}
-					if j == errIdx {
+					if own[j] == errP {
 						a = fa[j]
 						continue
 					}
-					if fa[j] != ts.intern(&T{Op: "param", Aux: fn.Params[j].Name(), Typ: fn.Params[j].Type()}) {
+					if fa[j] != own[j] {
 						sameRest = false
 					}
 				}
